@@ -25,7 +25,7 @@ pub struct Case {
 
 fn base_scenario(prog: &Program, leader: usize, out_mask: &[bool], inputs: &[u64], strategy: Strategy, comp_id: u128) -> Scenario {
     let pols = (0..prog.parties).map(|p| server::policy_for(prog, comp_id, p, leader, inputs[p], out_mask[p])).collect();
-    Scenario { policies: vec![pols], concurrency: 2, strategy, gate_msgs: true, fail_rpc: None, injections: vec![], skip_schedule: vec![], max_steps: 20_000, fail_outputs: false, alt_policies: vec![] }
+    Scenario { policies: vec![pols], concurrency: 2, strategy, gate_msgs: true, gate_replies: false, fail_rpc: None, injections: vec![], skip_schedule: vec![], max_steps: 20_000, fail_outputs: false, alt_policies: vec![] }
 }
 
 /// number of idle points of the undisturbed run (for "inject at every point k")
@@ -80,10 +80,16 @@ pub fn cases_c14(tier: &str, seed: u64) -> Vec<Case> {
                         let keep = (k + party + seed as usize) % 3;
                         injs = injs.into_iter().enumerate().filter(|(i, _)| i % 3 == keep || (k == 0 && *i >= 10)).map(|(_, x)| x).collect();
                     }
-                    for inj in injs {
+                    for (ii, inj) in injs.into_iter().enumerate() {
                         let mut sc = base.clone();
                         sc.injections = vec![(When::Step(k), inj.clone())];
                         v.push(Case { prop: "C14", key: format!("{} L{} {}step{} p{} {}", prog.name, leader, if late { "late-followers " } else { "" }, k, party, inj_name(&inj)), sc, progs: vec![(*prog).clone()], inputs: vec![inputs.clone()], out_masks: vec![mask.clone()], leaders: vec![leader], mismatch: None, mt: None });
+                        // the same command queued right behind the command that action k causes
+                        if k >= 1 && k <= steps && ii < 4 && (thorough || k < 16) {
+                            let mut sc = base.clone();
+                            sc.injections = vec![(When::After(k), inj.clone())];
+                            v.push(Case { prop: "C14", key: format!("{} L{} {}behind-action{} p{} {}", prog.name, leader, if late { "late-followers " } else { "" }, k, party, inj_name(&inj)), sc, progs: vec![(*prog).clone()], inputs: vec![inputs.clone()], out_masks: vec![mask.clone()], leaders: vec![leader], mismatch: None, mt: None });
+                        }
                     }
                 }
             }
@@ -137,7 +143,10 @@ fn judge_c14(c: &Case, rec: &RunRecord) -> Vec<(String, Value)> {
             let executing = rec.rpcs.iter().any(|r| r.kind == RpcKind::Msg && r.from == p && r.fate != "unused" && r.t_issue < inj.t_call);
             if executing { true } else if p == leader { !scheduled_before } else { !validate_released_before }
         } else if inj.what == "validate" {
-            if p == leader { scheduled_before } else { validate_done_before }
+            // a follower that has already been handed the leader's validate (delivered at an earlier idle
+            // point, so it has been processed) is in ValidateRequested or later: a second one is invalid
+            let validate_delivered_before = validate_rpc.map(|r| r.fate == "delivered").unwrap_or(false) && validate_released_before;
+            if p == leader { scheduled_before } else { validate_done_before || validate_delivered_before }
         } else {
             false
         };
@@ -185,6 +194,12 @@ pub fn cases_c15(tier: &str, seed: u64) -> Vec<Case> {
                         let mut sc = base.clone();
                         sc.injections = vec![(When::Step(k), Inject::Cancel { comp: 0, party })];
                         v.push(Case { prop: "C15", key: format!("{} L{} gated={} step{} cancel p{}", prog.name, leader, gate_msgs, k, party), sc, progs: vec![(*prog).clone()], inputs: vec![inputs.clone()], out_masks: vec![mask.clone()], leaders: vec![leader], mismatch: None, mt: None });
+                        // the same cancel queued right behind the command that action k causes (transient states)
+                        if k >= 1 && k <= steps && (thorough || gate_msgs || k < 14) {
+                            let mut sc = base.clone();
+                            sc.injections = vec![(When::After(k), Inject::Cancel { comp: 0, party })];
+                            v.push(Case { prop: "C15", key: format!("{} L{} gated={} behind-action{} cancel p{}", prog.name, leader, gate_msgs, k, party), sc, progs: vec![(*prog).clone()], inputs: vec![inputs.clone()], out_masks: vec![mask.clone()], leaders: vec![leader], mismatch: None, mt: None });
+                        }
                     }
                 }
             }
@@ -491,7 +506,7 @@ pub fn cases_c17(tier: &str, seed: u64) -> Vec<Case> {
         if i % 5 == 4 {
             injections.push((When::Step(rng.random_range(0..30)), Inject::Cancel { comp: rng.random_range(0..batch), party: rng.random_range(0..2) }));
         }
-        let sc = Scenario { policies: pols, concurrency, strategy: Strategy::Random(seed ^ (i as u64).wrapping_mul(0x9e3779b97f4a7c15)), gate_msgs: i % 2 == 0, fail_rpc: fail, injections, skip_schedule: vec![], max_steps: 60_000, fail_outputs: i % 7 == 3, alt_policies: vec![] };
+        let sc = Scenario { policies: pols, concurrency, strategy: Strategy::Random(seed ^ (i as u64).wrapping_mul(0x9e3779b97f4a7c15)), gate_msgs: i % 2 == 0, gate_replies: i % 3 == 1, fail_rpc: fail, injections, skip_schedule: vec![], max_steps: 60_000, fail_outputs: i % 7 == 3, alt_policies: vec![] };
         v.push(Case { prop: "C17", key: format!("batch{batch} conc{concurrency} fail={} cancel={} dest-unreachable={}", fail.map(|(k, _)| format!("{k:?}")).unwrap_or("none".into()), i % 5 == 4, i % 7 == 3), sc, progs: ps, inputs, out_masks: masks, leaders, mismatch: None, mt: None });
     }
     // the two single-computation shapes named in the property, for every failing RPC kind and output choice
@@ -512,6 +527,26 @@ pub fn cases_c17(tier: &str, seed: u64) -> Vec<Case> {
                         sc2.fail_outputs = true;
                         sc2.fail_rpc = Some((kind, which));
                         v.push(Case { prop: "C17", key: format!("single fail={kind:?}#{which} dest-unreachable L{leader}"), sc: sc2, progs: vec![prog.clone()], inputs: vec![inp.clone()], out_masks: vec![mask.clone()], leaders: vec![leader], mismatch: None, mt: None });
+                    }
+                }
+            }
+        }
+    }
+    // three parties: the failing call goes to the first, the second, ... follower (k-th issued call of its kind)
+    for (pi, prog) in [&progs[4], &progs[6]].into_iter().enumerate() {
+        for kind in [RpcKind::Validate, RpcKind::Run, RpcKind::Consts] {
+            for leader in 0..3 {
+                if !thorough && pi == 1 && leader != (seed as usize) % 3 {
+                    continue;
+                }
+                for which in 0..(if kind == RpcKind::Consts { 4 } else { 2 }) {
+                    for url in [true, false] {
+                        let mask = vec![url, url, url];
+                        let inp = vec![5, 77, 201];
+                        let mut sc = base_scenario(prog, leader, &mask, &inp, Strategy::Script(vec![]), 0x17e00 + pi as u128);
+                        sc.concurrency = 1;
+                        sc.fail_rpc = Some((kind, which));
+                        v.push(Case { prop: "C17", key: format!("three-party {} fail={kind:?}#{which} url={url} L{leader}", prog.name), sc, progs: vec![(*prog).clone()], inputs: vec![inp.clone()], out_masks: vec![mask.clone()], leaders: vec![leader], mismatch: None, mt: None });
                     }
                 }
             }
